@@ -135,7 +135,7 @@ def model_timeline(writer):
                 st = (set(st) if st is not None else set()) - {int(arg)}
             elif kind == "clear":
                 st = set() if writer["shape"] == "TSS" else {}
-            elif kind == "set":
+            elif kind in ("set", "setc"):
                 k2, v = arg.split(":")
                 st = dict(st) if st is not None else {}
                 st[int(k2)] = int(v)
@@ -224,6 +224,12 @@ def check_flags(sc, log):
             for path, n in walk(pi):
                 if n["m"] != (1 if n["lmt"] == t else 0):
                     return ("modified_vs_lmt", "t=%d probe %d%s: modified=%d but last_modified_time=%s" % (t, probe["id"], path, n["m"], n["lmt"])), stats
+                if "modk" in n and n["v"]:
+                    # a dictionary names as modified exactly its live entries whose child is modified in this cycle
+                    kid_mod = sorted(str(k) for k, c in (n.get("ch") or {}).items() if c["m"])
+                    if sorted(map(str, n["modk"])) != kid_mod and n["m"]:
+                        return ("modified_keys_vs_children", "t=%d probe %d%s: modified_keys() reads %s but the children reading modified are %s" % (
+                            t, probe["id"], path, n["modk"], kid_mod)), stats
                 kids = list((n.get("ch") or {}).values())
                 if kids:
                     if any(c["m"] for c in kids) and not n["m"]:
